@@ -61,6 +61,15 @@ namespace
                 "\"temperature models\":[{\"model\":\"gaussian\",\"operation\":\"add\",\"centerline temperatures\":[150,250],\"gaussian sigmas\":[0.3,0.4],\"depths\":[5e4,5e5]}],"
                 "\"composition models\":[{\"model\":\"uniform\",\"compositions\":[3]}]}"
                 "]}");
+    // B4: temperature- and pressure-dependent compositions (option strings with a fixed set of supported values)
+    b.push_back("{\"version\":\"1.1\",\"interpolation\":\"continuous monotone spline\",\"features\":["
+                "{\"model\":\"oceanic plate\",\"name\":\"op\",\"max depth\":1e5,\"coordinates\":" + pts({{0,0},{4*s,0},{4*s,4*s},{0,4*s}}) +
+                ",\"temperature models\":[{\"model\":\"plate model\",\"max depth\":1e5,\"spreading velocity\":0.05,\"ridge coordinates\":[[[-5e5,-1e6],[-5e5,1e6]]]}],"
+                "\"composition models\":[{\"model\":\"tian water content\",\"compositions\":[0],\"min depth\":0,\"max depth\":6e3,\"density\":3000,\"lithology\":\"MORB\",\"initial water content\":1,\"cutoff pressure\":16,\"operation\":\"replace\"}]},"
+                "{\"model\":\"subducting plate\",\"name\":\"sl\",\"interpolation\":\"global\",\"coordinates\":[[2e5,0],[2.2e5,2e5],[2e5,4e5]],\"dip point\":[9e5,2e5],\"segments\":[{\"length\":3e5,\"thickness\":[8e4],\"angle\":[45]}],"
+                "\"temperature models\":[{\"model\":\"mass conserving\",\"density\":3300,\"spreading velocity\":0.05,\"subducting velocity\":0.04,\"ridge coordinates\":[[[-5e5,-1e6],[-5e5,1e6]]],\"reference model name\":\"plate model\"}],"
+                "\"composition models\":[{\"model\":\"tian water content\",\"compositions\":[1],\"density\":3300,\"min distance slab top\":0,\"max distance slab top\":2e4,\"lithology\":\"peridotite\",\"initial water content\":2,\"cutoff pressure\":10}]}"
+                "]}");
     return b;
   }
 
@@ -104,6 +113,10 @@ namespace
             rapidjson::Document rv; rv.Parse<rapidjson::kParseNanAndInfFlag>(REPL[r]);
             rapidjson::Value nv(rv, d.GetAllocator());
             rapidjson::Pointer(p.c_str()).Set(d, nv);
+            // an option that names one of a documented, closed set of choices: any other string is an unsupported value and must be rejected
+            static const std::set<std::string> CLOSED = {"lithology", "reference model name", "depth method", "model", "operation", "orientation operation", "interpolation"};
+            const bool unsupported = CLOSED.count(key) && std::string(REPL[r]) == "\"x\"" && rapidjson::Pointer(p.c_str()).Get(d0)->IsString();
+            if (unsupported) { Cand c; c.kind = "tree/unsupported-option-value/" + key; c.text = dump(d); c.note = "base " + std::to_string(bi) + ": " + p + " := \"x\""; c.expect = MUST_REJECT; out.push_back(c); continue; }
             out.push_back({"tree/replace", dump(d), "base " + std::to_string(bi) + ": " + p + " := " + REPL[r]});
           }
         // delete
